@@ -1,24 +1,29 @@
 (* Property C16 — hashing agrees with equality, and comparison with the member tuple.
    Only statements here; every proof is `exact <lemma>` into Misc/HashProofs.v.
 
+   The five constants of the code (hp: magic number and shift amounts of hash_combine_impl, initial seeds of
+   hash(tuple) / hash(variant)) are universally quantified too: every clause holds for ALL admissible constants
+   (`hp_ok`: 64-bit words, shifts below 64 — only the two seed bounds are ever used); the instance the check runs
+   with is built from the regenerated Gen/GenHash.v (Misc/HashInst.v), and Tie_C16 shows it is admissible.
    The leaf type, std::hash on leaves (h), == and < on leaves (leqb, lltb) are universally quantified; what is
    assumed about them is the premise `leaf_ok` (== is an equivalence, exactly one of <, ==, > holds, < is
    transitive, equal leaves hash equal).  `cmp_shape x y` says that x and y are two values of one C++ type whose
    operators compare values (same shape, no smart pointer inside). *)
 From Coq Require Import List Bool Arith NArith.
-From Nitro Require Import Misc.Hash Misc.HashSpec Misc.TupleOrder Misc.HashProofs.
+From Nitro Require Import Misc.Hash Misc.HashSpec Misc.TupleOrder Misc.HashProofs Misc.HashInst.
 Import ListNotations.
 Local Open Scope list_scope.
 
 (* equal values hash equal — tuples, pairs, variants, pointers, tuple_operators types, in every nesting *)
-Theorem C16_hash_respects_eq : forall (leaf : Type) (h : leaf -> N) (leqb lltb : leaf -> leaf -> bool),
+Theorem C16_hash_respects_eq : forall (leaf : Type) (hp : hparams) (h : leaf -> N) (leqb lltb : leaf -> leaf -> bool),
   leaf_ok leaf h leqb lltb ->
-  forall x y : value leaf, veqb leaf leqb x y = true -> hash leaf h x = hash leaf h y.
+  forall x y : value leaf, veqb leaf leqb x y = true -> hash leaf hp h x = hash leaf hp h y.
 Proof. exact hash_respects_eq. Qed.
 Print Assumptions C16_hash_respects_eq.
 
 (* every hash is a 64-bit word: the model's explicit `mod 2^64` arithmetic never leaves std::size_t *)
-Theorem C16_hash_is_word : forall (leaf : Type) (h : leaf -> N) (x : value leaf), (hash leaf h x < 2 ^ 64)%N.
+Theorem C16_hash_is_word : forall (leaf : Type) (hp : hparams) (h : leaf -> N), hp_ok hp = true ->
+  forall x : value leaf, (hash leaf hp h x < 2 ^ 64)%N.
 Proof. exact hash_lt_W. Qed.
 Print Assumptions C16_hash_is_word.
 
@@ -29,20 +34,21 @@ Proof. exact combine_with_injective. Qed.
 Print Assumptions C16_combine_injective_in_value.
 
 (* hence: changing the LAST component of a tuple / member tuple to one with another hash changes the hash *)
-Theorem C16_last_component_sensitive : forall (leaf : Type) (h : leaf -> N) (l : list (value leaf)) (x y : value leaf),
-  hash leaf h x <> hash leaf h y ->
-  hash leaf h (VTuple (l ++ [x])) <> hash leaf h (VTuple (l ++ [y])) /\
-  hash leaf h (VObj (l ++ [x])) <> hash leaf h (VObj (l ++ [y])).
+Theorem C16_last_component_sensitive : forall (leaf : Type) (hp : hparams) (h : leaf -> N), hp_ok hp = true ->
+  forall (l : list (value leaf)) (x y : value leaf),
+  hash leaf hp h x <> hash leaf hp h y ->
+  hash leaf hp h (VTuple (l ++ [x])) <> hash leaf hp h (VTuple (l ++ [y])) /\
+  hash leaf hp h (VObj (l ++ [x])) <> hash leaf hp h (VObj (l ++ [y])).
 Proof. exact last_component_sensitive. Qed.
 Print Assumptions C16_last_component_sensitive.
 
-Theorem C16_pair_second_sensitive : forall (leaf : Type) (h : leaf -> N) (a x y : value leaf),
-  hash leaf h x <> hash leaf h y -> hash leaf h (VPair a x) <> hash leaf h (VPair a y).
+Theorem C16_pair_second_sensitive : forall (leaf : Type) (hp : hparams) (h : leaf -> N), hp_ok hp = true -> forall a x y : value leaf,
+  hash leaf hp h x <> hash leaf hp h y -> hash leaf hp h (VPair a x) <> hash leaf hp h (VPair a y).
 Proof. exact pair_second_sensitive. Qed.
 Print Assumptions C16_pair_second_sensitive.
 
-Theorem C16_variant_value_sensitive : forall (leaf : Type) (h : leaf -> N) (k : nat) (x y : value leaf),
-  hash leaf h x <> hash leaf h y -> hash leaf h (VVariant k x) <> hash leaf h (VVariant k y).
+Theorem C16_variant_value_sensitive : forall (leaf : Type) (hp : hparams) (h : leaf -> N), hp_ok hp = true -> forall (k : nat) (x y : value leaf),
+  hash leaf hp h x <> hash leaf hp h y -> hash leaf hp h (VVariant k x) <> hash leaf hp h (VVariant k y).
 Proof. exact variant_value_sensitive. Qed.
 Print Assumptions C16_variant_value_sensitive.
 
@@ -51,11 +57,12 @@ Print Assumptions C16_variant_value_sensitive.
    property text, "changing or swapping components changes the hash", holds only "up to rare collisions" and is
    not a theorem: that the two folds stay different is NOT claimed; the correspondence run checks it on the grid.) *)
 Theorem C16_component_changes_running_seed_partial :
-  forall (leaf : Type) (h : leaf -> N) (l : list (value leaf)) (x y : value leaf) (r : list (value leaf)),
-  hash leaf h x <> hash leaf h y ->
+  forall (leaf : Type) (hp : hparams) (h : leaf -> N), hp_ok hp = true ->
+  forall (l : list (value leaf)) (x y : value leaf) (r : list (value leaf)),
+  hash leaf hp h x <> hash leaf hp h y ->
   exists s1 s2 : N, s1 <> s2 /\
-    hash leaf h (VTuple (l ++ x :: r)) = fold_seed leaf h s1 r /\ hash leaf h (VTuple (l ++ y :: r)) = fold_seed leaf h s2 r /\
-    hash leaf h (VObj (l ++ x :: r)) = fold_seed leaf h s1 r /\ hash leaf h (VObj (l ++ y :: r)) = fold_seed leaf h s2 r.
+    hash leaf hp h (VTuple (l ++ x :: r)) = fold_seed leaf hp h s1 r /\ hash leaf hp h (VTuple (l ++ y :: r)) = fold_seed leaf hp h s2 r /\
+    hash leaf hp h (VObj (l ++ x :: r)) = fold_seed leaf hp h s1 r /\ hash leaf hp h (VObj (l ++ y :: r)) = fold_seed leaf hp h s2 r.
 Proof. exact component_changes_running_seed. Qed.
 Print Assumptions C16_component_changes_running_seed_partial.
 
@@ -63,22 +70,22 @@ Print Assumptions C16_component_changes_running_seed_partial.
    tuple on every call.  (a) hashes taken along the way (directly or by a container) do not change the object;
    (b) the hash asked for after ANY history of hash requests, in-place member assignments and whole-object
    assignments is the hash of a freshly built object with the members the object has now *)
-Theorem C16_hash_has_no_history : forall (leaf : Type) (h : leaf -> N) (ops : list (hop leaf)) (l : list (value leaf)),
-  (forall seen seen', fst (hrun leaf h ops l seen) = fst (hrun leaf h (filter (is_mutation leaf) ops) l seen')) /\
-  fst (hrun leaf h (ops ++ [HHash]) l []) = fst (hrun leaf h ops l []) /\
-  snd (hrun leaf h (ops ++ [HHash]) l []) = snd (hrun leaf h ops l []) ++ [hash leaf h (VObj (fst (hrun leaf h ops l [])))].
+Theorem C16_hash_has_no_history : forall (leaf : Type) (hp : hparams) (h : leaf -> N) (ops : list (hop leaf)) (l : list (value leaf)),
+  (forall seen seen', fst (hrun leaf hp h ops l seen) = fst (hrun leaf hp h (filter (is_mutation leaf) ops) l seen')) /\
+  fst (hrun leaf hp h (ops ++ [HHash]) l []) = fst (hrun leaf hp h ops l []) /\
+  snd (hrun leaf hp h (ops ++ [HHash]) l []) = snd (hrun leaf hp h ops l []) ++ [hash leaf hp h (VObj (fst (hrun leaf hp h ops l [])))].
 Proof.
-  intros leaf h ops l. split; [intros seen seen'; exact (hrun_members_ignore_hashes leaf h ops l seen seen') | exact (hash_after_history leaf h ops l)].
+  intros leaf hp h ops l. split; [intros seen seen'; exact (hrun_members_ignore_hashes leaf hp h ops l seen seen') | exact (hash_after_history leaf hp h ops l)].
 Qed.
 Print Assumptions C16_hash_has_no_history.
 
 (* so "equal values hash equal" holds for values however they came to be: a mutated object hashes like every
    value equal to its current state *)
-Theorem C16_hash_after_history_respects_eq : forall (leaf : Type) (h : leaf -> N) (leqb lltb : leaf -> leaf -> bool),
+Theorem C16_hash_after_history_respects_eq : forall (leaf : Type) (hp : hparams) (h : leaf -> N) (leqb lltb : leaf -> leaf -> bool),
   leaf_ok leaf h leqb lltb ->
   forall (ops : list (hop leaf)) (l : list (value leaf)) (y : value leaf),
-  veqb leaf leqb (VObj (fst (hrun leaf h ops l []))) y = true ->
-  snd (hrun leaf h (ops ++ [HHash]) l []) = snd (hrun leaf h ops l []) ++ [hash leaf h y].
+  veqb leaf leqb (VObj (fst (hrun leaf hp h ops l []))) y = true ->
+  snd (hrun leaf hp h (ops ++ [HHash]) l []) = snd (hrun leaf hp h ops l []) ++ [hash leaf hp h y].
 Proof. exact hash_after_history_eq. Qed.
 Print Assumptions C16_hash_after_history_respects_eq.
 
@@ -138,17 +145,17 @@ Print Assumptions C16_le_iff_lt_or_eq.
 
 (* a hash container that compares a stored key with the probe only when their hash words agree finds exactly the
    payload of the first inserted key equal to the probe, and nothing when no inserted key is equal *)
-Theorem C16_unordered_lookup : forall (leaf : Type) (h : leaf -> N) (leqb lltb : leaf -> leaf -> bool),
+Theorem C16_unordered_lookup : forall (leaf : Type) (hp : hparams) (h : leaf -> N) (leqb lltb : leaf -> leaf -> bool),
   leaf_ok leaf h leqb lltb ->
   forall (kvs : list (value leaf * nat)) (y : value leaf),
-  tfind leaf h leqb (tbuild leaf h leqb kvs) y = spec_lookup leaf leqb kvs y.
+  tfind leaf hp h leqb (tbuild leaf hp h leqb kvs) y = spec_lookup leaf leqb kvs y.
 Proof. exact table_lookup. Qed.
 Print Assumptions C16_unordered_lookup.
 
-Theorem C16_unordered_found_iff_inserted : forall (leaf : Type) (h : leaf -> N) (leqb lltb : leaf -> leaf -> bool),
+Theorem C16_unordered_found_iff_inserted : forall (leaf : Type) (hp : hparams) (h : leaf -> N) (leqb lltb : leaf -> leaf -> bool),
   leaf_ok leaf h leqb lltb ->
   forall (kvs : list (value leaf * nat)) (y : value leaf),
-  tfind leaf h leqb (tbuild leaf h leqb kvs) y <> None <-> (exists k p, In (k, p) kvs /\ veqb leaf leqb k y = true).
+  tfind leaf hp h leqb (tbuild leaf hp h leqb kvs) y <> None <-> (exists k p, In (k, p) kvs /\ veqb leaf leqb k y = true).
 Proof. exact table_found_iff_inserted. Qed.
 Print Assumptions C16_unordered_found_iff_inserted.
 
@@ -163,6 +170,10 @@ Print Assumptions C16_oracle_is_spec.
 Module Examples.
 Local Open Scope N_scope.
 Definition nh (a : N) : N := a.
+(* the constants of the pinned tree (boost's hash_combine), for the examples that quote real hash words *)
+Definition boost : hparams := {| hp_magic := 2654435769; hp_shl := 6; hp_shr := 2; hp_tuple_seed := 0; hp_variant_seed := 0 |}.
+Example C16_ex_boost_admissible : hp_ok boost = true.
+Proof. reflexivity. Qed.
 Example n_leaf_ok : leaf_ok N nh N.eqb N.ltb.
 Proof.
   constructor.
@@ -181,40 +192,47 @@ Qed.
 (* the words the real code produces (harness/hash_driver.cpp on the pinned tree):
    hash(std::tuple<int,int>{1,0}) = 0x00000028cd94bf1d, {0,1} = 0x00000028cd94bfd1, std::tuple<>{} = 0,
    std::variant<int,...>{1} = 0x9e3779ba, std::pair<int,int>{1,0} = 0x9e3779f8 (seeded with hash(first), not 0) *)
-Example C16_ex_tuple_1_0 : hash N nh (VTuple [VLeaf 1; VLeaf 0]) = 175247769373.
+Example C16_ex_tuple_1_0 : hash N boost nh (VTuple [VLeaf 1; VLeaf 0]) = 175247769373.
 Proof. vm_compute. reflexivity. Qed.
-Example C16_ex_tuple_0_1 : hash N nh (VTuple [VLeaf 0; VLeaf 1]) = 175247769553.
+Example C16_ex_tuple_0_1 : hash N boost nh (VTuple [VLeaf 0; VLeaf 1]) = 175247769553.
 Proof. vm_compute. reflexivity. Qed.
-Example C16_ex_empty : hash N nh (VObj []) = 0.
+Example C16_ex_empty : hash N boost nh (VObj []) = 0.
 Proof. reflexivity. Qed.
-Example C16_ex_variant : hash N nh (VVariant 0 (VLeaf 1)) = 2654435770.
+Example C16_ex_variant : hash N boost nh (VVariant 0 (VLeaf 1)) = 2654435770.
 Proof. vm_compute. reflexivity. Qed.
-Example C16_ex_pair : hash N nh (VPair (VLeaf 1) (VLeaf 0)) = 2654435832.
+Example C16_ex_pair : hash N boost nh (VPair (VLeaf 1) (VLeaf 0)) = 2654435832.
 Proof. vm_compute. reflexivity. Qed.
 (* nested object: Q{h, P{i, s, d}} with numeric stand-ins; comparison decided by the inner last member *)
 Example C16_ex_ops :
   let x := VObj [VLeaf 7; VObj [VLeaf 1; VLeaf 2; VLeaf 3]] in
   let y := VObj [VLeaf 7; VObj [VLeaf 1; VLeaf 2; VLeaf 4]] in
   cmp_shape N x y = true /\ op_lt N N.ltb x y = true /\ op_le N N.ltb x y = true /\ op_gt N N.ltb x y = false /\
-  op_ge N N.ltb x y = false /\ op_eq N N.eqb x y = false /\ op_ne N N.eqb x y = true /\ hash N nh x <> hash N nh y.
+  op_ge N N.ltb x y = false /\ op_eq N N.eqb x y = false /\ op_ne N N.eqb x y = true /\ hash N boost nh x <> hash N boost nh y.
 Proof. vm_compute. repeat split; discriminate. Qed.
 Example C16_ex_table :
-  let t := tbuild N nh N.eqb [(VObj [VLeaf 1; VLeaf 2], 0%nat); (VObj [VLeaf 3; VLeaf 4], 1%nat); (VObj [VLeaf 1; VLeaf 2], 2%nat)] in
-  length t = 2%nat /\ tfind N nh N.eqb t (VObj [VLeaf 3; VLeaf 4]) = Some 1%nat /\ tfind N nh N.eqb t (VObj [VLeaf 1; VLeaf 2]) = Some 0%nat /\
-  tfind N nh N.eqb t (VObj [VLeaf 2; VLeaf 1]) = None.
+  let t := tbuild N the_params nh N.eqb [(VObj [VLeaf 1; VLeaf 2], 0%nat); (VObj [VLeaf 3; VLeaf 4], 1%nat); (VObj [VLeaf 1; VLeaf 2], 2%nat)] in
+  length t = 2%nat /\ tfind N the_params nh N.eqb t (VObj [VLeaf 3; VLeaf 4]) = Some 1%nat /\ tfind N the_params nh N.eqb t (VObj [VLeaf 1; VLeaf 2]) = Some 0%nat /\
+  tfind N the_params nh N.eqb t (VObj [VLeaf 2; VLeaf 1]) = None.
 Proof. vm_compute. repeat split. Qed.
 Example C16_ex_history :
   (* hash x; x.member1 = 9; hash x  — the second word is the hash of a fresh (1, 9), not the first word again *)
-  hrun N nh [HHash; HSet 1%nat (VLeaf 9); HHash] [VLeaf 1; VLeaf 0] [] =
-  ([VLeaf 1; VLeaf 9], [hash N nh (VObj [VLeaf 1; VLeaf 0]); hash N nh (VObj [VLeaf 1; VLeaf 9])]) /\
-  hash N nh (VObj [VLeaf 1; VLeaf 0]) <> hash N nh (VObj [VLeaf 1; VLeaf 9]).
+  hrun N the_params nh [HHash; HSet 1%nat (VLeaf 9); HHash] [VLeaf 1; VLeaf 0] [] =
+  ([VLeaf 1; VLeaf 9], [hash N the_params nh (VObj [VLeaf 1; VLeaf 0]); hash N the_params nh (VObj [VLeaf 1; VLeaf 9])]) /\
+  hash N the_params nh (VObj [VLeaf 1; VLeaf 0]) <> hash N the_params nh (VObj [VLeaf 1; VLeaf 9]).
 Proof. vm_compute. split; [reflexivity | discriminate]. Qed.
 (* a variant that is valueless_by_exception(): hashes to the bare seed, equals only another valueless one, is below
    every variant holding a value; inside a tuple it is a component like any other *)
 Example C16_ex_valueless :
-  hash N nh VValueless = 0 /\ veqb N N.eqb VValueless VValueless = true /\ veqb N N.eqb VValueless (VVariant 0 (VLeaf 0)) = false /\
+  hash N boost nh VValueless = 0 /\ veqb N N.eqb VValueless VValueless = true /\ veqb N N.eqb VValueless (VVariant 0 (VLeaf 0)) = false /\
   vltb N N.ltb VValueless (VVariant 0 (VLeaf 0)) = true /\ vltb N N.ltb (VVariant 0 (VLeaf 0)) VValueless = false /\
-  hash N nh (VTuple [VLeaf 1; VValueless]) = hash N nh (VTuple [VLeaf 1; VLeaf 0]) /\
+  hash N boost nh (VTuple [VLeaf 1; VValueless]) = hash N boost nh (VTuple [VLeaf 1; VLeaf 0]) /\
   cmp_shape N (VObj [VValueless; VLeaf 1]) (VObj [VVariant 1 (VLeaf 5); VLeaf 1]) = true.
 Proof. vm_compute. repeat split. Qed.
+(* with the constants in use NOW (whatever they are): structure of the computation, no literal words *)
+Example C16_ex_instance :
+  hash N the_params nh (VTuple [VLeaf 1; VLeaf 0]) =
+    combine the_params (combine the_params (hp_tuple_seed the_params) 1) 0 /\
+  hash N the_params nh (VPair (VLeaf 1) (VLeaf 0)) = combine the_params 1 0 /\
+  hash N the_params nh (VObj []) = hp_tuple_seed the_params /\ hash N the_params nh VValueless = hp_variant_seed the_params.
+Proof. repeat split. Qed.
 End Examples.
